@@ -324,9 +324,11 @@ theorem call_keeps (c0 : C) (call : Call) (h : NoMorePlain c0) : Keeps c0 (c0.ca
     | some e => exact h1
     | none =>
       simp only []
-      generalize (Text.trimSpace ("AUTH ".b ++ mech ++ [32] ++ (match ir with | none => [] | some r => if r.isEmpty then [61] else Server.b64Encode r))) = line
-      have h2 := cmd_keeps c1 0 line h1.nmp
-      exact (h1.trans h2).trans (authLoop_keeps _ _ _ _ _ h2.nmp)
+      split
+      · exact h1
+      · generalize (Text.trimSpace ("AUTH ".b ++ mech ++ [32] ++ (match ir with | none => [] | some r => if r.isEmpty then [61] else Server.b64Encode r))) = line
+        have h2 := cmd_keeps c1 0 line h1.nmp
+        exact (h1.trans h2).trans (authLoop_keeps _ _ _ _ _ h2.nmp)
 
 theorem calls_keeps (cs : List Call) : ∀ (c : C), NoMorePlain c → Keeps c (cs.foldl (fun c k => (c.call k).1) c) := by
   induction cs with
